@@ -421,6 +421,14 @@ def run_unit(udesc, tier="quick", timeout_ms=None, known=None):
         out["wall_s"] = round(time.time() - t0, 3)
         return out
     out["paths"] = len(results)
+    if getattr(ex, "undecided_paths", None):
+        out["partial_undecided"] = sorted({str(e) for e in ex.undecided_paths})[:5]
+        dr = getattr(holder.get("h"), "default_replay", None)
+        if dr is not None:
+            try:
+                out["undecided_replay_spec"] = dr(lambda t: None)
+            except Exception:
+                pass
     escaped = [pr for pr in results if pr.kind == "raise"]
     if escaped:
         out["status"] = "crash"
